@@ -7,6 +7,16 @@ driver: lean/Driver/C02.lean (= JoblibModel/MemoryDriver.lean). Shared machinery
   call (real args id ↔ model stream), and md5(model stream) == real args id;
 * oracle (no model): every value returned by the cached callable / a shelved `.get()` equals what the plain callable
   returns for the same arguments (type-aware comparison: 1, 1.0 and True are different values).
+  ALIASING between what the cache hands out and what it keeps (seeded change seed5-C02-m2: `MemorizedResult.get()` keeping the
+  loaded object): + 5 % histories (`cons…`) in which the CONSUMER works IN PLACE (append / sort / pop / clear / reverse, on the
+  returned dict and on every mutable value inside, never on an object the plain callable itself shares between calls) on the value
+  handed out by `__call__` (miss and hit), `call`, `call_and_shelve().get()`, a kept reference's `get()` and the `get()` of a
+  reference that went through pickle — then the same request comes again (references are dereferenced repeatedly, also after the
+  entry was cleared / recomputed): every hand-out must still equal the plain function's result on fresh arguments. Signature
+  `handed-out-value-aliased:<call|get|shelveget|force>`. The model's values have no identity, so "hand-outs do not alias" is true
+  of it by construction (C02.lean says so); what it contributes is what each hand-out must EQUAL (`get_reads_only`,
+  `get_repeatable`, `served_value_is_the_stored_one`) — the independence of the real objects is the correspondence's and the
+  oracle's business. Two corpus histories (compress off / on).
 """
 
 from .. import core, memcache
@@ -25,6 +35,10 @@ REQUIRED_THEOREMS = [
     "C02.effect_on_arguments_irrelevant",
     "C02.cached_call_correct_mutating_partial",
     "C02.key_after_call_wrong_value_counterexample",
+    # values handed out vs values kept (a reference dereferenced repeatedly; a hit)
+    "C02.get_reads_only",
+    "C02.get_repeatable",
+    "C02.served_value_is_the_stored_one",
 ]
 TRUSTED_EXTRA = [
     "modelled, not verified: md5 (the digest is the parameter H; the theorems assume no collision among the finitely many keys of the "
